@@ -481,3 +481,59 @@ pub fn ladder_2d(k: usize) -> MSym {
     debug_assert!(s.is_complete_set() && s.ops_are_involutions() && s.far_ops_commute());
     s
 }
+
+
+/// D-set of all flags of a polyhedron given by its faces as vertex cycles, every edge traversed once in each
+/// direction (consistent orientation). Flags are (face, position, end); op0 changes the vertex, op1 the edge,
+/// op2 the face.
+pub fn polyhedron_flags(faces: &[Vec<usize>]) -> MSym {
+    let mut id = std::collections::BTreeMap::new();
+    let mut n = 0usize;
+    for (f, cyc) in faces.iter().enumerate() {
+        for j in 0..cyc.len() {
+            for e in 0..2 {
+                n += 1;
+                id.insert((f, j, e), n);
+            }
+        }
+    }
+    // directed edge (a, b) -> (face, position)
+    let mut dir = std::collections::BTreeMap::new();
+    for (f, cyc) in faces.iter().enumerate() {
+        for j in 0..cyc.len() {
+            let prev = dir.insert((cyc[j], cyc[(j + 1) % cyc.len()]), (f, j));
+            assert!(prev.is_none(), "directed edge used twice");
+        }
+    }
+    let mut s = MSym::new(2, n);
+    for (f, cyc) in faces.iter().enumerate() {
+        let k = cyc.len();
+        for j in 0..k {
+            let a = id[&(f, j, 0)];
+            let b = id[&(f, j, 1)];
+            s.op[0][a] = b;
+            s.op[0][b] = a;
+            // same vertex cyc[j], same face, other edge: (f, j, 0) <-> (f, j-1, 1)
+            let c = id[&(f, (j + k - 1) % k, 1)];
+            s.op[1][a] = c;
+            s.op[1][c] = a;
+            // same edge, same vertex cyc[j], other face: the face running cyc[j+1] -> cyc[j]
+            let (f2, j2) = dir[&(cyc[(j + 1) % k], cyc[j])];
+            let d = id[&(f2, j2, 1)];
+            s.op[2][a] = d;
+            s.op[2][d] = a;
+        }
+    }
+    assert!(s.is_complete_set() && s.ops_are_involutions() && s.is_connected(), "polyhedron_flags: not a D-set");
+    s
+}
+
+/// Flags of the p-gonal prism: 12p chambers, p + 2 faces, 2p vertices.
+pub fn prism_flags(p: usize) -> MSym {
+    let mut faces: Vec<Vec<usize>> = vec![(0..p).collect(), (0..p).rev().map(|i| p + i).collect()];
+    for i in 0..p {
+        let j = (i + 1) % p;
+        faces.push(vec![j, i, p + i, p + j]);
+    }
+    polyhedron_flags(&faces)
+}
